@@ -90,15 +90,19 @@ static mjSpec* make_spec(uint64_t seed, unsigned feat, int nbody, int nmesh, int
   for (int t = 0; t < ntex; t++) {
     mjsTexture* tx = mjs_addTexture(s);
     snprintf(nm, sizeof(nm), "tex%d", t); mjs_setName(tx->element, nm);
-    tx->type = (t % 3 == 2) ? mjTEXTURE_CUBE : mjTEXTURE_2D;
-    tx->builtin = (t % 2) ? mjBUILTIN_CHECKER : mjBUILTIN_GRADIENT;
-    if (t % 4 == 3) tx->builtin = mjBUILTIN_FLAT;
-    tx->mark = (mjtMark)mjg_int(&R, 3);
+    // every texture type x builtin x mark value is reachable; random-dot marks (the only builtin that draws from a
+    // pseudo-random generator) are frequent and often occur several times in one spec
+    { int ty = mjg_int(&R, 4); tx->type = ty == 2 ? mjTEXTURE_CUBE : ty == 3 ? mjTEXTURE_SKYBOX : mjTEXTURE_2D; }
+    { int bi = mjg_int(&R, 3); tx->builtin = bi == 0 ? mjBUILTIN_GRADIENT : bi == 1 ? mjBUILTIN_CHECKER : mjBUILTIN_FLAT; }
+    { static const mjtMark marks[6] = {mjMARK_NONE, mjMARK_EDGE, mjMARK_CROSS, mjMARK_RANDOM, mjMARK_RANDOM, mjMARK_RANDOM};
+      tx->mark = marks[mjg_int(&R, 6)]; }
     for (int k = 0; k < 3; k++) { tx->rgb1[k] = mjg_u(&R); tx->rgb2[k] = mjg_u(&R); tx->markrgb[k] = mjg_u(&R); }
-    tx->random = mjg_chance(&R, 0.5) ? 0.01 : 0;
+    tx->random = tx->mark == mjMARK_RANDOM ? (mjg_chance(&R, 0.85) ? 0.002 + 0.05 * mjg_u(&R) : 0) : (mjg_chance(&R, 0.3) ? 0.01 : 0);
+    if (mjg_chance(&R, 0.2)) tx->hflip = 1;
+    if (mjg_chance(&R, 0.2)) tx->vflip = 1;
     // the first texture is large, the others small
     int sz = t == 0 ? 256 : 8 << mjg_int(&R, 3);
-    tx->width = sz; tx->height = (tx->type == mjTEXTURE_CUBE) ? sz : sz * (1 + mjg_int(&R, 2));
+    tx->width = sz; tx->height = (tx->type != mjTEXTURE_2D) ? sz : sz * (1 + mjg_int(&R, 2));
     mjsMaterial* mt = mjs_addMaterial(s, NULL);
     snprintf(nm, sizeof(nm), "mat%d", t); mjs_setName(mt->element, nm);
     snprintf(nm, sizeof(nm), "tex%d", t);
@@ -207,6 +211,17 @@ static const Comp COMPS[] = {
 
 static void run_case(uint64_t seed, unsigned feat, int nbody, int nmesh, int ntex, int flags, int reps) {
   g_ndiff = 0;
+  // reps < 0: "history" run -- first compile (-reps - 1) OTHER specs in this process (and thread), then only the first
+  // compile of the case and its hash are reported; the check compares that hash with a fresh process
+  if (reps < 0) {
+    for (int k = 0; k < -reps - 1; k++) {
+      mjSpec* w = make_spec(seed + 7919 * (k + 1), feat, nbody > 2 ? 2 : nbody, nmesh > 1 ? 1 : nmesh, ntex + 1, flags & ~(1 | 32));
+      w->compiler.usethread = (mjtBool)(k & 1);
+      mjModel* wm = mj_compile(w, NULL);
+      if (wm) mj_deleteModel(wm);
+      mj_deleteSpec(w);
+    }
+  }
   mjSpec* s = make_spec(seed, feat, nbody, nmesh, ntex, flags);
   mjModel* m1 = mj_compile(s, NULL);
   if (!m1) {
@@ -242,8 +257,11 @@ static void run_case(uint64_t seed, unsigned feat, int nbody, int nmesh, int nte
     return;
   }
   std::vector<unsigned char> ref = save(m1);
+  { unsigned long long h = 1469598103934665603ull; for (unsigned char ch : ref) { h ^= ch; h *= 1099511628211ull; }
+    printf("HASH %016llx %zu\n", h, ref.size()); }
   printf("INFO nmesh %d ntex %d nhfield %d nmeshvert %d ntexdata %lld nu %d nq %d bytes %zu usethread %d\n", (int)m1->nmesh, (int)m1->ntex,
          (int)m1->nhfield, (int)m1->nmeshvert, (long long)m1->ntexdata, (int)m1->nu, (int)m1->nq, ref.size(), (int)s->compiler.usethread);
+  if (reps < 0) { mj_deleteModel(m1); mj_deleteSpec(s); printf("END OK\n"); return; }
   // compile the same spec again
   mjModel* m2 = mj_compile(s, NULL);
   cmp("twice", m1, ref, m2);
